@@ -44,8 +44,8 @@ ASSUMPTIONS = ['NumberWithUnitExtractor.extract / _extract_separate_units / _sel
                'number extractor\'s results, the matches of non_unit_regex / separate_regex / '
                'ambiguous_unit_number_multiplier_regex / half_unit_regex, the keep-masks of the two _filter_ambiguity '
                'calls; the correspondence records them on every replayed call',
-               'BaseMergedUnitExtractor grouping (__merge_pure_number / __merged_compound_units) is not modelled: covered '
-               'by the compound-currency pipeline family only',
+               'BaseMergedUnitExtractor grouping (__merge_pure_number / __merged_compound_units) is modelled as span '
+               'arithmetic with the connector-regex test per gap as a parameter (correspondence only, no theorem)',
                'str.lower is modelled per code point (final-sigma rule not modelled)']
 CJK = ('zh-cn', 'ja-jp')
 
@@ -405,8 +405,14 @@ def extractor_level(ctx, cfgs):
                     tasks.append((mt, cul, k, 'row', q))
             sforms = [f for (kd, u, f) in rows if kd == 'suffix']
             pforms = [f for (kd, u, f) in rows if kd == 'prefix']
-            for q in uxrec.seeded_sentences(r, sforms, pforms, getattr(exc, 'connector_token', '') or '', cjk, n_seeded):
+            seeded = uxrec.seeded_sentences(r, sforms, pforms, getattr(exc, 'connector_token', '') or '', cjk, n_seeded)
+            for q in seeded:
                 tasks.append((mt, cul, k, 'seeded', q))
+            if type(ep.extractor).__name__ == 'BaseMergedUnitExtractor':
+                # grouping of BaseMergedUnitExtractor (it rebuilds its matchers on every call: fewer sentences)
+                for q in seeded[:(400 if ctx.thorough else 60)] + ['1 dollar and 14 cents', '5 dollars 3', '$5 usd, $ 7',
+                                                                   '2.5 dollars 30 cents and 3 euros, 4']:
+                    tasks.append((mt, cul, k, 'merged', q))
     # the negative witness of Props/C05 (`nwu_furthest_reach_counterexample`) is a statement about the function for an
     # arbitrary matcher; the shipped matchers cannot produce it, so it is replayed through the model only (below).
     chunks = [tasks[i::64] for i in range(64)]
@@ -421,7 +427,7 @@ def extractor_level(ctx, cfgs):
                 raise common.InfraError('recording NumberWithUnitExtractor.extract failed on %r (%s %s): %s' % (q, mt, cul, err))
             ctx.count('NumberWithUnitExtractor.extract recorded (%s)' % fam)
             for key in ('prefix', 'suffix', 'separate', 'comma', 'select_conflict', 'filtered', 'nonunit', 'half', 'cut',
-                        'bracket', 'raised'):
+                        'bracket', 'raised', 'filter_raised', 'merged_group', 'pure_number_merged'):
                 if stats.get(key):
                     hist[key] = hist.get(key, 0) + 1
             if not stats['wf']:
@@ -436,14 +442,15 @@ def extractor_level(ctx, cfgs):
                 ops.append(op)
                 metas.append(t)
     answers = common.driver([op[1] for op in ops])
-    ctx.count('RTV.UnitExtract replay (ux.extract / ux.select)', len(ops))
+    ctx.count('RTV.UnitExtract replay (ux.extract / ux.select / ux.merge)', len(ops))
     for op, t, a in zip(ops, metas, answers):
         d = uxrec.compare(op, a)
         if d is None:
             continue
         (mt, cul, k, fam, q) = t
         what = {'extract': 'NumberWithUnitExtractor.extract', 'extract-pre': 'NumberWithUnitExtractor.extract (before '
-                'expand_half_suffix)', 'select': 'NumberWithUnitExtractor._select_candidates'}[op[0]]
+                'expand_half_suffix)', 'select': 'NumberWithUnitExtractor._select_candidates',
+                'merged': 'BaseMergedUnitExtractor.extract (__merge_pure_number + __merged_compound_units)'}[op[0]]
         ctx.report('correspondence', 'nwu-' + op[0], '%s %s pair %d: %s on %r: implementation %s, model %s' % (
             mt, cul, k, what, q, uxrec.show(op[2]), uxrec.show(a)),
             failing_input={'op': what, 'model_type': mt, 'culture': cul, 'pair': k, 'source': q, 'driver_line': op[1][:2000],
